@@ -42,17 +42,17 @@ func normalisedSorted(m *gen.Map, vals []float64) []float64 {
 	return out
 }
 
-// binOf tells in which bin (sign, index) the implementation must place x; zero=true for the zero bucket.
+// inSameBin tells whether y lies in the bin (sign and index, or the zero bucket) that holds x.
 func inSameBin(m *gen.Map, y, x float64) bool {
 	ax := math.Abs(x)
 	if ax < m.Min {
 		return y == 0
 	}
-	want := math.Copysign(m.M.Value(m.M.Index(ax)), x)
+	same := y != 0 && (y < 0) == (x < 0) && m.M.Index(math.Abs(y)) == m.M.Index(ax)
 	if ax == m.Min {
-		return y == 0 || y == want
+		return y == 0 || same
 	}
-	return y == want
+	return same
 }
 
 func init() {
